@@ -105,6 +105,7 @@ func main() {
 	T.emitAll()
 	T.write(*out)
 	T.writeHooks(*hooks, *out)
+	T.writeFacts(*out)
 }
 
 // ---------------------------------------------------------------- collection
